@@ -22,12 +22,32 @@ mod parsers;
 use parsers::*;
 
 const HEADER: &str = r#"From ZV.Common Require Import Base Run.
-From ZV.C15 Require Import Model.
+From ZV.C15 Require Import Model ModelCases.
 Open Scope N_scope.
-Definition case_t : Type := N * N * list N * N * list Z.
-Definition ok (c : case_t) : bool :=
-  let '(pid, arg, bytes, code, vals) := c in check_case pid arg bytes code vals.
+Definition case_t : Type := xcase.
+Definition ok (c : case_t) : bool := xok c.
 "#;
+
+/// the Coq term of a case: (pid, arg, aux, bytes, (pad_count, pad_byte), code, vals); a long run of one
+/// byte at the end of the input is shipped as a count
+fn coq_case(pid: u32, arg: u64, aux: &[u64], bytes: &[u8], code: u8, vals: &[i128]) -> String {
+    let mut cut = bytes.len();
+    if bytes.len() > 64 {
+        let last = bytes[bytes.len() - 1];
+        while cut > 0 && bytes[cut - 1] == last { cut -= 1; }
+        if bytes.len() - cut < 32 { cut = bytes.len(); }
+    }
+    let (pc, pb) = if cut < bytes.len() { (bytes.len() - cut, bytes[cut]) } else { (0, 0) };
+    format!("({}, {}, {}, {}, ({}, {}), {}, {})", pid, arg, coq_n_list(aux.iter().map(|&x| x as u128)), coq_bytes(&bytes[..cut]), pc, pb, code, coq_z_list(vals.iter().cloned()))
+}
+/// bytes that remain after the run-length cut (bounds the size of a case file)
+fn coq_len(bytes: &[u8]) -> usize {
+    if bytes.len() <= 64 { return bytes.len(); }
+    let last = bytes[bytes.len() - 1];
+    let mut cut = bytes.len();
+    while cut > 0 && bytes[cut - 1] == last { cut -= 1; }
+    if bytes.len() - cut < 32 { bytes.len() } else { cut }
+}
 
 const AS_LIMIT: u64 = 1 << 30; // address-space limit of a child
 const SUBST: [u8; 5] = [0x00, 0x01, 0x7F, 0x80, 0xFF];
@@ -626,12 +646,15 @@ pub fn run(args: &Args) {
 
     // ---- which cases also go to the Coq model ---------------------------------------------------
     let coq_budget: usize = if args.thorough { 6000 } else { 1300 };
-    // budget split: damaged valid encodings 70 %, enumerated 15 %, random 15 %
+    // budget split: damaged valid encodings 66 %, enumerated 14 %, random 14 %, long inputs with a lying length 6 %
     let kind_of = |s: &Src| -> usize { let b = match s { Src::Sub { inner, .. } => &**inner, x => x }; match b { Src::Mut { .. } => 0, Src::Enum { .. } => 1, Src::Rand { .. } => 2, _ => 3 } };
-    let modelled = |s: &Src| s.parser().map(|p| ps[p].model != 0).unwrap_or(false);
+    // long inputs go to Coq only for models that run in linear time (the sequence decoders re-measure the
+    // remaining slice in every iteration, the PA-Zip model appends to its observation list)
+    let coq_long_ok = |m: u32| matches!(m, 1 | 3 | 10..=26 | 50 | 51 | 52 | 80 | 81 | 90 | 91);
+    let modelled = |s: &Src| s.parser().map(|p| ps[p].model != 0 && (!matches!(s, Src::Long { .. }) || coq_long_ok(ps[p].model))).unwrap_or(false);
     let mut kind_total = [0usize; 4];
     for s in srcs.iter().filter(|s| modelled(s)) { kind_total[kind_of(s)] += s.len(); }
-    let share = [70usize, 15, 15, 0];
+    let share = [66usize, 14, 14, 6];
     let strides: Vec<usize> = srcs.iter().map(|s| match s {
         Src::Explicit { cases } => if cases.iter().any(|c| ps[c.0].model != 0) { 1 } else { 0 },
         _ => if modelled(s) {
@@ -696,8 +719,8 @@ pub fn run(args: &Args) {
         let mut cj = case_json(name, arg, &bytes, origin);
         cj["observed"] = json!(format!("{}: {}", f.kind, f.msg));
         sum.fail(name, class, cj, &format!("{} returned neither a value nor an error: {} ({}) on a {} input of {} bytes, arg {}", name, f.kind, f.msg, origin, bytes.len(), arg));
-        if ps[p].model != 0 && bytes.len() <= 300 && shards.len() < 2 * coq_budget {
-            let term = format!("({}, {}, {}, 2, []%Z)", ps[p].model, arg, coq_bytes(&bytes));
+        if ps[p].model != 0 && coq_len(&bytes) <= 600 && shards.len() < 2 * coq_budget {
+            let term = coq_case(ps[p].model, arg, &(ps[p].aux)(), &bytes, 2, &[]);
             let mut cj2 = case_json(name, arg, &bytes, origin);
             cj2["impl_obs"] = json!(format!("crash: {}", f.kind));
             shards.push(term, cj2);
@@ -707,8 +730,8 @@ pub fn run(args: &Args) {
     for o in &res.obs {
         if failed.contains(&(o.src, o.i)) { continue; }
         let (p, arg, bytes, origin) = srcs[o.src].get(o.i);
-        if ps[p].model == 0 || bytes.len() > 300 || shards.len() >= 2 * coq_budget { continue; }
-        let term = format!("({}, {}, {}, {}, {})", ps[p].model, arg, coq_bytes(&bytes), o.code, coq_z_list(o.vals.iter().cloned()));
+        if ps[p].model == 0 || coq_len(&bytes) > 600 || shards.len() >= 2 * coq_budget { continue; }
+        let term = coq_case(ps[p].model, arg, &(ps[p].aux)(), &bytes, o.code, &o.vals);
         let mut cj = case_json(ps[p].name, arg, &bytes, origin);
         cj["impl_obs"] = json!({"code": o.code, "vals": o.vals.iter().map(|x| x.to_string()).collect::<Vec<_>>()});
         shards.push(term, cj);
